@@ -74,7 +74,7 @@ def cases(draw):
         "path": draw(gen.linear_paths(n)) if n > 1 else [],
         "removed": removed,
         "scales": [draw(rng_s) for _ in range(n)],
-        "dtype": draw(st.sampled_from(["f", "c"])),
+        "dtype": draw(st.sampled_from(["f", "c"])),  # (f4 / c8 are understood by run_case but not generated: no sound tolerance separates exponent rounding from float32 noise on networks this small)
         "signed": draw(st.booleans()),
         "api": api,
         "prefer_einsum": draw(st.booleans()),
@@ -112,10 +112,12 @@ def run_case(spec, sub=None):
     n = len(inputs)
     removed = [(ix, p) for ix, p in spec["removed"]]
     signed = spec["signed"] and not removed
-    bases = ref.make_arrays(inputs, sizes, spec["aseed"], spec["dtype"], lo=-3, hi=3, nonzero=True)
+    single = spec["dtype"] in ("f4", "c8")
+    base_kind = {"f4": "f", "c8": "c"}.get(spec["dtype"], spec["dtype"])
+    bases = ref.make_arrays(inputs, sizes, spec["aseed"], base_kind, lo=-3, hi=3, nonzero=True)
     if not signed:
-        bases = [np.abs(b.real) + (1j * np.abs(b.imag) if spec["dtype"] == "c" else 0) for b in bases]
-        if spec["dtype"] != "c":
+        bases = [np.abs(b.real) + (1j * np.abs(b.imag) if base_kind == "c" else 0) for b in bases]
+        if base_kind != "c":
             bases = [b.real.astype(np.float64) for b in bases]
     check_zero = bool(spec.get("check_zero"))
     nzero = 0
@@ -132,6 +134,8 @@ def run_case(spec, sub=None):
     # in the (then no longer integer) bases and smax joins the sum of scales
     extra = 0
     ps = spec.get("plane_scales")
+    if spec["dtype"] in ("f4", "c8"):
+        ps = None  # (per-slice decades are a double precision exercise)
     if ps and removed:
         j, k, svals = ps
         ix = removed[j % len(removed)][0]
@@ -160,7 +164,15 @@ def run_case(spec, sub=None):
     scales = list(spec["scales"])
     if ps and removed:
         scales[i] += extra
-    arrays = [b * 10.0 ** s for b, s in zip(bases, scales)]
+    if single:
+        # float32 / complex64 operands: decades limited to what the type holds
+        # (a pairwise product of two operands must still fit: |decade| <= 15)
+        scales = [max(-15, min(15, s_)) for s_ in spec["scales"]]
+        S = sum(scales)
+        arrays = [(b * 10.0 ** s_).astype(np.complex64 if base_kind == "c" else np.float32) for b, s_ in zip(bases, scales)]
+        cls.append("single_precision")
+    else:
+        arrays = [b * 10.0 ** s for b, s in zip(bases, scales)]
     out_shape = tuple(sizes[ix] for ix in output)
     kw = {"strip_exponent": True}
     api = spec["api"]
@@ -261,10 +273,11 @@ def run_case(spec, sub=None):
             else:
                 val = m * 10.0**d
                 err = float(np.max(np.abs(val - R)))
-                if not err <= 1e-9 * M:
+                tol_ = 2e-5 if single else 1e-9
+                if not err <= tol_ * M:
                     viol.append(
                         f"{what}: mantissa x 10**exponent differs from the reference by {err:.3g} "
-                        f"(tolerance {1e-9 * M:.3g})"
+                        f"(tolerance {tol_ * M:.3g})"
                     )
     nontrivial = abs(S) > 300 or bool(removed)
     if abs(S) > 300:
